@@ -70,3 +70,16 @@ claim('C01', 'translation_validation',
       _TB + '; the independent decoder/opcode tables in vf/scgf.py; non-ring operators are uninterpreted.',
       'symbolic execution of the real builder/optimiser + SMT equivalence of source and compiled terms (QF_NRA)',
       'DESIGN.md 3/C01')
+
+claim('C02', 'translation_validation',
+      'Families of graph functions (width-first units x optimiser rewrites, multi-output units and nested expansion '
+      'with symbolic channel counts, sums over a symbolic number of generators up to 40/300, definition names of '
+      '0..257 characters, parameters of several sizes/rates with and without gate, invalid graphs) are built by the '
+      'real SynthDef with symbolic constants; per path an independent SCgf-2 reader must consume the bytes exactly, '
+      'all inputs refer to constants or strictly earlier outputs, width-first units precede everything created after '
+      'them, parameter slots are covered exactly once, and SynthDesc.new_from/_read_stream recover name, control names, '
+      'defaults (z3 equality with the symbolic source defaults), rates, gate flag and I/O units; invalid graphs must '
+      'raise. Every C01 path is validated structurally as well.',
+      _TB + '; creation order is observed by wrapping SynthDef._add_ugen from the harness.',
+      'symbolic execution of the real builder/writer/reader + independent structural validation per path',
+      'DESIGN.md 3/C02')
